@@ -22,11 +22,13 @@ class P(vlib.Prop):
             "count-1, >= count; returned payload and remainder compared with the model, ids + resource + scope + both "
             "schema URLs + whole metric identity.  run: the real processor (logs, traces, metrics) with a recording sink, "
             "validated configs (timeout 0 / 1 h, send_batch_size 0-10, max 0 or size..size+4, 0-3 metadata keys in mixed "
-            "case, cardinality limit 0-3), scripts of 1-10 Consume calls with generated client metadata (absent / empty / "
-            "one / two values / other keys) and timer firings (the shard's own timer is made to expire once the shard is "
+            "case, cardinality limit 0-3), scripts of 1-10 Consume calls with generated client metadata (value lists drawn from "
+            "confusable families: element boundaries [a,b]/[\"a,b\"]/[b,a], absent/[]/[\"\"], case/space/duplicates; other keys) and timer firings (the shard's own timer is made to expire once the shard is "
             "quiescent), then Shutdown; per export-context tuple the sequence of exported payloads and the class of every "
             "Consume result are compared with the model.  validate: Config.Validate classes.  Not compared with the model "
-            "but checked by the direct oracle: 8 concurrent producers (real 1-5 ms timers), real 30 ms timeout flush.  "
+            "but checked by the direct oracle: 8 concurrent producers (real 1-5 ms timers); real 20 ms timers under generated scripts of idle gaps, small "
+            "and big arrivals, optionally two metadata groups: after every arrival everything accepted must reach the sink by "
+            "the timeout alone.  "
             "A split case is non-trivial when it cuts, a run when it exports >= 2 batches, a validate case when rejected; "
             "distinct = distinct case terms.")
     trusted_base = [
